@@ -16,11 +16,23 @@ Bounded exhaustive enumeration (drivers E1 + E2) on the real lena.structures cod
     neither int nor float objects - Fraction (on the edges, between an edge and the float below it,
     a third into every bin, beyond the float range), huge int, bool, int and float subclasses,
     Decimal (integer edges only) - for every edge array, for multidimensional points with such
-    items, with Fraction and Decimal weights, and in fill sequences that mix the kinds.
+    items, with Fraction and Decimal weights, and in fill sequences that mix the kinds;
+  * the container axis (mc/ref/c06_forms.py): the same edges given in tuples and in instances of
+    list / tuple subclasses instead of lists - the flat edge list of every 1-dimensional array,
+    and for the multidimensional histograms every outer container x every assignment of list /
+    tuple to the axes - with bins made by lena and bins given, structure and element;
+  * histories: every sequence of fills and OPERATIONS (every other public method of the histogram:
+    reading, scale(), scale(other), set_nevents both ways, add; deepcopy and pickle; for the
+    element compute, reset, deepcopy) with at least one operation and a fill at the end, up to 3
+    steps (4, thorough 5, on the small histograms). The operations are executed, not judged: the
+    model takes over the contents the real object shows after an operation, and every fill after
+    it must again add its weight to exactly the right cell of THAT object and to nothing else -
+    not to bins the operation replaced, not to the object a copy was taken from.
 """
 import copy
 import itertools
 import math
+import pickle
 from decimal import Decimal
 from fractions import Fraction
 
@@ -31,6 +43,7 @@ from lena.structures import histogram, Histogram, get_bin_on_value_1d, get_bin_o
 from mc.core import Result, result_violations
 from mc.ref import c06c12_ref as R
 from mc.ref import c06_types as T
+from mc.ref import c06_forms as FM
 
 ID = "C06"
 LEVEL = "exploration"
@@ -48,14 +61,37 @@ RULE = ("every strictly increasing sub-sequence (2..6 edges quick, 2..9 thorough
         "structure fill of weight 1 (zero state) and of weight Fraction(-1, 3) (index-coded state) and "
         "both element drivers; every product of the short typed per-axis lists is a multidimensional "
         "point (tuple and list alternate) filled with weights 1, Fraction(-1, 3), Decimal('0.1'); three "
-        "sequence histograms mix the kinds of coordinates and weights. An index case is non-trivial when the array has at "
+        "sequence histograms mix the kinds of coordinates and weights. Container axis: every 1-d edge "
+        "array as tuple / list subclass / tuple subclass x (below, every edge, just below the last edge, "
+        "above) x (bins made by lena: structure; index-coded bins given: element with contexts), and "
+        "every multidimensional configuration in every form of mc/ref/c06_forms.forms_md (outer list / "
+        "tuple / list subclass / tuple subclass x every assignment of list / tuple to the axes, all axes "
+        "list subclass, all axes tuple subclass) x every product of those per-axis coordinates x four "
+        "drivers. Histories: for each of the history histograms every step sequence of the patterns "
+        "of/fof/off/oof (4 steps - thorough: up to 5 - where the count stays below the stated threshold) "
+        "with f = every (coordinate, weight) of per-axis [below, every edge] and o = "
+        "every operation of c06_forms.OPS (ELEMENT_OPS for the two element drivers); the model is "
+        "set to the real contents after each operation and every fill is judged (exact conservation "
+        "only while no operation has multiplied the contents). An index case is non-trivial when the array has at "
         "least two bins and the coordinate lies inside [first edge, last edge); a fill case when at "
-        "least one weight lands in a cell of a histogram with at least two cells. Cases are distinct "
-        "by construction (the enumeration never repeats an (array, coordinate, weight, state, driver) "
-        "combination)")
+        "least one weight lands in a cell of a histogram with at least two cells; a history when its last "
+        "fill does. Cases are distinct "
+        "by construction (the enumeration never repeats an (array, container form, coordinate, weight, "
+        "state, driver) combination or a history)")
 ASSUMPTIONS = [
-    "edges are lists of finite ints/floats, strictly increasing, with a finite span (last - first "
+"edges are finite ints/floats, strictly increasing, with a finite span (last - first "
     "does not overflow); 1-dimensional histograms use a flat edge list as lena documents",
+    "the containers of edges are lists, tuples and instances of subclasses of the two ('lists or "
+    "tuples of numbers', 'a sequence of one-dimensional arrays'); other sequence types (range, "
+    "array.array, deque) are outside the alphabet; everywhere off the container axis they are lists",
+    "operations between fills are the public methods of histogram (repr/==/get_nevents, scale(), "
+    "scale(3), set_nevents(8), set_nevents(8, include_out_of_range=True), add of an index-coded "
+    "histogram), copy.deepcopy and a pickle round trip, and compute / reset / deepcopy of the "
+    "element; their own results are not judged here (C12, C09), an exception they raise (documented "
+    "for a histogram without entries) ends nothing: the fills go on; assignment to the attributes "
+    "from outside is not an operation of the alphabet",
+    "what a fill must leave alone is every public attribute and the stored scale; other private "
+    "attributes are the implementation's (state kept there is judged by what later fills do)",
     "coordinates are finite numbers or +-inf (NaN is outside the alphabet); multidimensional "
     "coordinates are tuples or lists of the histogram's dimension",
     "a number is any object of a Python real-number type that can be compared with and subtracted "
@@ -68,13 +104,17 @@ ASSUMPTIONS = [
     "conservation for them is judged exactly with Fractions",
     "weights are 1, 2, 0.5, -1 (dyadic, so that conservation is exact); the Histogram element fills "
     "with weight 1 only (it has no weight argument)",
-    "fill sequences have length <= 3; 12-edge arrays are all sub-sequences of length >= 10 of six pools",
+"fill sequences have length <= 3, histories <= 3 steps (4 for a histogram with fewer than 30000 "
+    "histories of 4 steps; thorough: 4 and 5 with fewer than 1200000; an eighth of these thresholds "
+    "for the element drivers); 12-edge arrays are all "
+    "sub-sequences of length >= 10 of six pools",
 ]
 NONTRIVIAL_FLOOR = {"quick": 250000, "thorough": 600000}
 BUDGET_S = {"quick": 240, "thorough": 1500}
 
 WEIGHTS = [1, 2, 0.5, -1]
 N_ARRAY_SHARDS = 32
+N_FORM_SHARDS = 16
 
 
 def describe(tier):
@@ -84,9 +124,16 @@ def describe(tier):
             "states; %d multi-dimensional configurations; fill sequences of length <= 3; numeric-type "
             "axis: per edge array 4 typed coordinates per edge plus 7 (8 per edge plus 12 for integer "
             "arrays) of the kinds %s, typed points on every multi-dimensional configuration, "
-            "typed weights %r, 3 mixed-kind sequence histograms"
+"typed weights %r, 3 mixed-kind sequence histograms; container axis: %d forms of every 1-d "
+            "array, %d / %d forms of the 2- / 3-dimensional configurations; histories of fills and "
+            "operations (%d operations of the structure, %d of the element) of at most %d steps (4, "
+            "in the thorough tier 5, where fewer than %d of that length - an eighth of that for the "
+            "element drivers) on %d histograms"
             % (n, len(R.POOLS9), 9 if tier == "thorough" else 6, len(R.POOLS12), WEIGHTS,
-               len(_md_configs(tier)), "/".join(T.KINDS), [str(w) for w in T.TYPED_WEIGHTS]))
+               len(_md_configs(tier)), "/".join(T.KINDS), [str(w) for w in T.TYPED_WEIGHTS],
+               len(FM.forms_1d()), len(FM.forms_md(2)), len(FM.forms_md(3)), len(FM.OPS),
+               len(FM.ELEMENT_OPS), 3, HISTORY_EXTRA_BELOW[tier],
+               len(_history_configs(tier))))
 
 
 # ---- configurations ---------------------------------------------------------------------------------
@@ -147,17 +194,75 @@ def _md_configs(tier):
     return cfgs
 
 
+def _history_configs(tier):
+    """Histograms for the histories with operations between the fills: (name, edges, weights)."""
+    cfgs = [
+        ("1d-int-3bins", [0, 1, 2, 3], [1, 0.5, -1]),
+        ("1d-noise", [0.1, 0.2, 0.30000000000000004], [1, -1]),
+        ("2d-2x2", [[0, 1, 2], [0, 1, 2]], [1, -1]),
+        ("2d-1x3", [[0.5, 1e3], [-2, -1, 0, 1e-9]], [1, 2]),
+        ("3d-1x2x2", [[0, 1], [0, 1, 2], [0.0, 0.5, 1.0]], [1]),
+    ]
+    if tier == "thorough":
+        cfgs += [
+            ("2d-3x2", [[0, 1e-9, 1, 1e9], [1, 2, 4]], [1, 0.5]),
+            ("3d-2x2x2", [[0, 1, 2], [0.1, 0.2, 0.30000000000000004], [-1, 0, 1]], [1, -1]),
+        ]
+    return cfgs
+
+
+HISTORY_PARTS = {"quick": 4, "thorough": 8}
+# a history has at most 3 steps; 4 (thorough: up to 5) for a histogram and driver whose histories
+# of that length are fewer than this
+HISTORY_LONGEST = {"quick": 4, "thorough": 5}
+HISTORY_EXTRA_BELOW = {"quick": 30000, "thorough": 1200000}
+
+
+def _history_steps(cfg, element=False):
+    """(fill steps, operation steps) of one history configuration: the coordinates are every
+    product of per-axis [below the range, every edge] (an edge lies in the bin it opens, the last
+    edge is the first value above the range)."""
+    name, edges, weights = cfg
+    axes = R.unify(edges)
+    per_axis = [[a[0] - (a[-1] - a[0])] + list(a) for a in axes]
+    coords = per_axis[0] if len(axes) == 1 else list(itertools.product(*per_axis))
+    fills = [["f", c, w] for c in coords for w in ([1] if element else weights)]
+    ops = [["o", o] for o in (FM.ELEMENT_OPS if element else FM.OPS)]
+    return fills, ops
+
+
+def _history_max_len(tier, nf, no, element=False):
+    n = 3
+    # the element drivers (two of them, few operations) get an eighth of the threshold
+    limit = HISTORY_EXTRA_BELOW[tier] // (8 if element else 1)
+    # histories of n + 1 steps: every sequence of n fills / operations with an operation, then a fill
+    while n < HISTORY_LONGEST[tier] and ((nf + no) ** n - nf ** n) * nf < limit:
+        n += 1
+    return n
+
+
 def shards(tier):
+    # the cheap shards of every law first (a run stopped by its budget has then seen every law on
+    # the small histograms), the sweeps over all edge arrays and the long sequences after them
     out = [{"kind": "index", "chunk": k} for k in range(N_ARRAY_SHARDS)]
-    out += [{"kind": "fill1", "chunk": k} for k in range(N_ARRAY_SHARDS)]
-    out += [{"kind": "typed", "chunk": k} for k in range(N_ARRAY_SHARDS)]
     for i, _cfg in enumerate(_md_configs(tier)):
         for r in range(4):
             out.append({"kind": "md", "cfg": i, "part": r, "of": 4})
     for i, _cfg in enumerate(_md_configs(tier)):
         out.append({"kind": "md-typed", "cfg": i})
-    for i, cfg in enumerate(_seq_configs(tier)):
-        for r in range(6):
+    for i, _cfg in enumerate(_md_configs(tier)):
+        out.append({"kind": "forms-md", "cfg": i})
+    for i, cfg in enumerate(_history_configs(tier)):
+        for r in range(HISTORY_PARTS[tier]):
+            out.append({"kind": "history", "cfg": i, "part": r, "of": HISTORY_PARTS[tier]})
+    # the three sweeps over all edge arrays interleaved, so that a stopped run has seen each of them
+    for k in range(N_ARRAY_SHARDS):
+        out.append({"kind": "typed", "chunk": k})
+        if k < N_FORM_SHARDS:
+            out.append({"kind": "forms-1d", "chunk": k})
+        out.append({"kind": "fill1", "chunk": k})
+    for r in range(6):
+        for i, cfg in enumerate(_seq_configs(tier)):
             out.append({"kind": "seq", "cfg": i, "part": r, "of": 6})
     return out
 
@@ -177,11 +282,20 @@ def _with_kind(cause, coord, weight=1):
     return cause
 
 
-def check_index(res, edges, x):
+def _formed(case, cause, form):
+    """Cases and causes of the container axis carry the form; the others stay as they were."""
+    if form is not None:
+        case["form"] = form
+        cause["form"] = FM.form_label(form)
+    return case, cause
+
+
+def check_index(res, edges, x, form=None):
     ref = R.ref_index(edges, x)
     try:
-        got = get_bin_on_value_1d(x, edges)
-        got_md = get_bin_on_value(x, edges)
+        formed = edges if form is None else FM.apply_form(edges, form)
+        got = get_bin_on_value_1d(x, formed)
+        got_md = get_bin_on_value(x, formed)
     except Exception as e:
         got, got_md = "raised " + type(e).__name__, None
     nontrivial = len(edges) >= 3 and edges[0] <= x < edges[-1]
@@ -191,29 +305,29 @@ def check_index(res, edges, x):
             diff = max(-2, min(2, got - ref)) if got != ref else "get_bin_on_value-differs"
         else:
             diff = got
-        res.violation({"law": "bin-index-1d", "edges": T.enc(edges), "x": T.enc(x)},
-                      {"get_bin_on_value_1d": got, "get_bin_on_value": got_md}, ref,
-                      _with_kind({"law": "bin-index-1d", "position": R.position(edges, x),
-                                  "diff": diff}, x))
+        case, cause = _formed({"law": "bin-index-1d", "edges": T.enc(edges), "x": T.enc(x)},
+                              _with_kind({"law": "bin-index-1d", "position": R.position(edges, x),
+                                          "diff": diff}, x), form)
+        res.violation(case, {"get_bin_on_value_1d": got, "get_bin_on_value": got_md}, ref, cause)
 
 
-def check_index_md(res, edges, coord):
+def check_index_md(res, edges, coord, form=None):
     axes = R.unify(edges)
     ref = [R.ref_index(a, c) for a, c in zip(axes, coord)]
     try:
-        got = get_bin_on_value(coord, edges)
+        got = get_bin_on_value(coord, edges if form is None else FM.apply_form(edges, form))
     except Exception as e:
         got = "raised " + type(e).__name__
     inside = all(0 <= i < len(a) - 1 for i, a in zip(ref, axes))
     res.case(nontrivial=inside, outcome=("md", tuple(ref)))
     if got != ref:
-        res.violation({"law": "bin-index-md", "edges": T.enc(edges), "x": T.enc(list(coord)),
-                       "as_list": isinstance(coord, list)},
-                      got, ref,
-                      _with_kind({"law": "bin-index-md", "dim": len(axes),
-                                  "position": "/".join(sorted(set(R.position(a, c)
-                                                                  for a, c in zip(axes, coord))))},
-                                 coord))
+        case, cause = _formed({"law": "bin-index-md", "edges": T.enc(edges), "x": T.enc(list(coord)),
+                               "as_list": isinstance(coord, list)},
+                              _with_kind({"law": "bin-index-md", "dim": len(axes),
+                                          "position": "/".join(sorted(set(R.position(a, c)
+                                                                          for a, c in zip(axes, coord))))},
+                                         coord), form)
+        res.violation(case, got, ref, cause)
 
 
 # ---- fills ------------------------------------------------------------------------------------------
@@ -221,22 +335,30 @@ _CONT = (list, tuple)
 
 
 def _cp(x):
-    """Copy of nested lists/tuples of numbers (much cheaper than copy.deepcopy)."""
+    """Copy of nested lists/tuples of numbers (much cheaper than copy.deepcopy); instances of
+    subclasses of list and tuple are rebuilt in their own type."""
     t = type(x)
     if t is list:
-        if x and type(x[0]) in _CONT:
+        if x and isinstance(x[0], _CONT):
             return [_cp(v) for v in x]
         return x[:]
     if t is tuple:
-        if x and type(x[0]) in _CONT:
+        if x and isinstance(x[0], _CONT):
             return tuple(_cp(v) for v in x)
         return x
+    if isinstance(x, _CONT):
+        return t(_cp(v) for v in x)
     return x
 
 
 def _others(h):
-    """Copy of every attribute of the histogram except bins and n_out_of_range."""
-    return {k: _cp(v) for k, v in vars(h).items() if k != "bins" and k != "n_out_of_range"}
+    """Copy of every attribute of the histogram a fill has to leave alone: the public ones except
+    bins and n_out_of_range (edges, dim, ranges, nbins and whatever else is there), and the stored
+    scale, of which scale() documents that filling does not touch it. Other private attributes are
+    the implementation's own (a cache may be built when the first value comes); whether such state
+    does harm is judged by what the fills after it do, in the sequences and in the histories."""
+    return {k: _cp(v) for k, v in vars(h).items()
+            if (k[0] != "_" or k == "_scale") and k != "bins" and k != "n_out_of_range"}
 
 
 def _exact_total(h):
@@ -258,23 +380,62 @@ def _enc_events(events):
              "tuple" if isinstance(c, tuple) else ""] for c, w in events]
 
 
-def judge_fill(res, edges, bins0, n_out0, events, via="structure"):
+def _compare(h, model, before, edges, exact_total=True):
+    """What of the real histogram differs from the model after a fill (None: nothing).
+    exact_total=False: the contents are floats that are no dyadic rationals of a few bits (they
+    come from a rescaling), so the one addition of the fill rounds and the exact sum is not
+    demanded beyond the equality with the model, which makes the same addition (rule R4)."""
+    if h.bins != model.bins:
+        return "bins"
+    if h.n_out_of_range != model.n_out:
+        return "n_out_of_range"
+    if _others(h) != before or h.edges != edges:
+        return "other-attribute-changed"
+    if not exact_total:
+        return None
+    # math.fsum is exact whenever the exact sum is a float (always, for dyadic weights);
+    # a mismatch is confirmed with Fractions before it is reported
+    if _exact_total(h) != model.total:
+        try:
+            total = sum((Fraction(v) for v in R.flat(h.bins)), Fraction(0)) \
+                + Fraction(h.n_out_of_range)
+        except (TypeError, ValueError):
+            total = None
+        if total != model.total:
+            return "conservation"
+    return None
+
+
+def judge_fill(res, edges, bins0, n_out0, events, via="structure", form=None):
     """Build a fresh histogram (or Histogram element), apply the events one by one and compare
     with the reference model after every fill. events: list of (coordinate, weight).
+    *form* names the containers the edges are given in (mc/ref/c06_forms.py; None: plain lists).
     Returns True when some weight landed inside a cell."""
     def case():
-        return {"law": "fill", "via": via, "edges": T.enc(edges),
-                "bins": T.enc(bins0) if bins0 is not None else None, "n_out": n_out0,
-                "events": _enc_events(events)}
+        c = {"law": "fill", "via": via, "edges": T.enc(edges),
+             "bins": T.enc(bins0) if bins0 is not None else None, "n_out": n_out0,
+             "events": _enc_events(events)}
+        if form is not None:
+            c["form"] = form
+        return c
 
     def cause(what, coord, w=1):
-        return _with_kind({"law": "fill", "via": via, "dim": len(model.axes), "what": what,
-                           "position": _positions(model.axes, coord)}, coord, w)
+        c = _with_kind({"law": "fill", "via": via, "dim": len(model.axes), "what": what,
+                        "position": _positions(model.axes, coord)}, coord, w)
+        if form is not None:
+            # the container axis: which containers, not where the point lies
+            del c["position"]
+            c["form"] = FM.form_label(form)
+        return c
 
     model = R.ModelHist(edges, bins0, n_out0)
     landed = False
     try:
-        e = _cp(edges)
+        if form is None:
+            e = _cp(edges)
+        else:
+            e = FM.apply_form(edges, form)
+            edges = FM.apply_form(edges, form)        # what h.edges must stay equal to
         b = _cp(bins0)
         if via in ("structure", "structure-buffer"):
             el = None
@@ -286,8 +447,10 @@ def judge_fill(res, edges, bins0, n_out0, events, via="structure"):
             if n_out0:
                 h.n_out_of_range = n_out0
     except Exception as ex:
-        res.violation(case(), "construction raised " + type(ex).__name__, "a histogram",
-                      {"law": "fill", "via": via, "what": "construction:" + type(ex).__name__})
+        c = {"law": "fill", "via": via, "what": "construction:" + type(ex).__name__}
+        if form is not None:
+            c["form"] = FM.form_label(form)
+        res.violation(case(), "construction raised " + type(ex).__name__, "a histogram", c)
         return False
     buf = []
     for step, (coord, w) in enumerate(events):
@@ -312,24 +475,7 @@ def judge_fill(res, edges, bins0, n_out0, events, via="structure"):
                           {"bins": T.enc(model.bins), "n_out_of_range": T.enc(model.n_out)},
                           cause("exception:" + type(ex).__name__, coord, w))
             return landed
-        what = None
-        if h.bins != model.bins:
-            what = "bins"
-        elif h.n_out_of_range != model.n_out:
-            what = "n_out_of_range"
-        elif _others(h) != before or h.edges != edges:
-            what = "other-attribute-changed"
-        else:
-            # math.fsum is exact whenever the exact sum is a float (always, for dyadic weights);
-            # a mismatch is confirmed with Fractions before it is reported
-            if _exact_total(h) != model.total:
-                try:
-                    total = sum((Fraction(v) for v in R.flat(h.bins)), Fraction(0)) \
-                        + Fraction(h.n_out_of_range)
-                except (TypeError, ValueError):
-                    total = None
-                if total != model.total:
-                    what = "conservation"
+        what = _compare(h, model, before, edges)
         if what:
             res.violation(case(), {"step": step, "bins": T.enc(h.bins),
                                    "n_out_of_range": T.enc(h.n_out_of_range)},
@@ -339,6 +485,148 @@ def judge_fill(res, edges, bins0, n_out0, events, via="structure"):
             return landed
     res.outcome((R.flat(model.bins), model.n_out))
     return landed
+
+
+# ---- histories: operations between the fills ---------------------------------------------------------
+# operations after which the contents are still the small dyadic rationals the fills made them (add
+# adds small integers); the others multiply the contents with a quotient
+_KEEPS_CONTENTS = ("read", "scale", "add", "deepcopy", "pickle", "compute", "reset")
+
+
+def _hist_op(name, h, edges):
+    """Execute one operation of FM.OPS on the real histogram; returns the histogram to go on with."""
+    if name == "read":
+        repr(h)
+        h == h
+        h != 0
+        h.get_nevents()
+        h.get_nevents(include_out_of_range=True)
+        return h
+    if name == "scale":
+        h.scale()
+        return h
+    if name == "rescale":
+        h.scale(3)
+        return h
+    if name == "set_nevents":
+        h.set_nevents(8)
+        return h
+    if name == "set_nevents_all":
+        h.set_nevents(8, include_out_of_range=True)
+        return h
+    if name == "add":
+        return h.add(histogram(_cp(edges), R.coded_bins(edges)))
+    if name == "deepcopy":
+        return copy.deepcopy(h)
+    if name == "pickle":
+        return pickle.loads(pickle.dumps(h))
+    raise ValueError(name)
+
+
+def _element_op(name, el):
+    if name == "compute":
+        list(el.compute())
+        return el
+    if name == "reset":
+        el.reset()
+        return el
+    if name == "deepcopy":
+        return copy.deepcopy(el)
+    raise ValueError(name)
+
+
+def judge_history(res, edges, steps, via="structure"):
+    """A history of fills with operations in between (steps: ["f", coordinate, weight] or
+    ["o", name]) on one fresh histogram (or Histogram element). The operations are executed, not
+    judged (what scaling, adding, resetting give belongs to C12 / C09): after each of them the
+    reference model is set to the bins and n_out_of_range the real object then shows. Every fill
+    is judged as always: the weight in exactly the one cell (or in n_out_of_range), nothing else
+    changed, weight conserved. An object left behind by deepcopy / pickle / add must not see the
+    fills of its successor. Returns True when the last fill landed in a cell."""
+    def case():
+        return {"law": "history", "via": via, "edges": T.enc(edges),
+                "steps": [[st[0], st[1]] if st[0] == "o" else
+                          ["f"] + _enc_events([(st[1], st[2])])[0] for st in steps]}
+
+    def cause(what, k, coord):
+        prev = [st[1] for st in steps[:k] if st[0] == "o"]
+        first_op = min([i for i, st in enumerate(steps[:k]) if st[0] == "o"] or [0])
+        return {"law": "history", "via": via, "dim": len(axes), "what": what,
+                "after": prev[-1] if prev else None,
+                "filled_before_first_operation": any(st[0] == "f" for st in steps[:first_op]),
+                "position": _positions(axes, coord)}
+
+    def current(obj):
+        return obj if el_mode is False else list(obj.compute())[0][0]
+
+    axes = R.unify(edges)
+    el_mode = via != "structure"
+    try:
+        obj = Histogram(_cp(edges)) if el_mode else histogram(_cp(edges))
+        h = current(obj)
+    except Exception as ex:
+        res.violation(case(), "construction raised " + type(ex).__name__, "a histogram",
+                      {"law": "history", "via": via, "what": "construction:" + type(ex).__name__})
+        return False
+    model = R.ModelHist(edges)
+    left_behind = []          # (operation, histogram, its bins and n_out_of_range when it was left)
+    inside = False
+    exact = True              # until an operation has produced the contents
+    op_outcomes = []
+    for k, st in enumerate(steps):
+        if st[0] == "o":
+            try:
+                new = _element_op(st[1], obj) if el_mode else _hist_op(st[1], obj, edges)
+                op_outcomes.append("ok")
+            except Exception as ex:
+                # documented for histograms without entries / with zero integral (LenaValueError);
+                # whatever it is, it is the operation's affair: the fills go on on the same object
+                new = obj
+                op_outcomes.append(type(ex).__name__)
+            if new is not obj:
+                left_behind.append((st[1], h, copy.deepcopy(h.bins), h.n_out_of_range))
+            obj = new
+            exact = exact and st[1] in _KEEPS_CONTENTS
+            try:
+                h = current(obj)
+                model = R.ModelHist(edges, h.bins, h.n_out_of_range)
+            except Exception as ex:
+                # the operation left something that is no histogram of finite numbers: not a
+                # matter of fill
+                res.outcome(("history-ends", st[1], type(ex).__name__))
+                return False
+            continue
+        coord, w = st[1], st[2]
+        before = _others(h)
+        idx, inside = model.fill(coord, w)
+        try:
+            if not el_mode:
+                obj.fill(_cp(coord), w)
+            elif via == "element":
+                obj.fill(_cp(coord))
+            else:
+                obj.fill((_cp(coord), {"ctx": k}))
+            h = current(obj)
+        except Exception as ex:
+            res.violation(case(), "step %d: fill raised %s" % (k, type(ex).__name__),
+                          {"bins": T.enc(model.bins), "n_out_of_range": T.enc(model.n_out)},
+                          cause("exception:" + type(ex).__name__, k, coord))
+            return False
+        what = _compare(h, model, before, edges, exact_total=exact)
+        if not what:
+            for name, old, bins, n_out in left_behind:
+                if old.bins != bins or old.n_out_of_range != n_out:
+                    what = "fill-reached-the-object-left-by-" + name
+                    break
+        if what:
+            res.violation(case(), {"step": k, "bins": T.enc(h.bins),
+                                   "n_out_of_range": T.enc(h.n_out_of_range)},
+                          {"cell": list(idx), "inside": inside, "bins": T.enc(model.bins),
+                           "n_out_of_range": T.enc(model.n_out)},
+                          cause(what, k, coord))
+            return False
+    res.outcome((R.flat(model.bins), model.n_out, tuple(op_outcomes)))
+    return inside
 
 
 def run_index(res, tier, chunk):
@@ -513,6 +801,94 @@ def run_seq(res, tier, p):
                     "events": _enc_events(last)}, 1)
 
 
+def run_history(res, tier, p):
+    """Every history of fills and operations of the patterns FM.history_patterns(max length) - at
+    least one operation, a fill at the end - on the structure, and on the Histogram element with
+    its own operations (bare data and (data, context) values)."""
+    cfg = _history_configs(tier)[p["cfg"]]
+    name, edges, weights = cfg
+    ncells = len(R.cells_in_order(edges))
+    for via in ("structure", "element", "element-ctx"):
+        fills, ops = _history_steps(cfg, element=via != "structure")
+        maxlen = _history_max_len(tier, len(fills), len(ops), element=via != "structure")
+        res.maximum("max_history_length", maxlen)
+        last = None
+        for pattern in FM.history_patterns(maxlen):
+            lists = [fills if c == "f" else ops for c in pattern]
+            for i, first in enumerate(lists[0]):
+                for j, second in enumerate(lists[1]):
+                    # a shard = the histories whose first two steps have this index sum
+                    if (i + j) % p["of"] != p["part"]:
+                        continue
+                    for rest in itertools.product(*lists[2:]):
+                        steps = [first, second] + list(rest)
+                        landed = judge_history(res, edges, steps, via=via)
+                        res.case(nontrivial=landed and ncells >= 2)
+                        res.count("histories_" + ("structure" if via == "structure" else "element"))
+                        last = steps
+        if last and via == "structure":
+            res.sample({"law": "history", "via": via, "edges": T.enc(edges),
+                        "steps": [[st[0], st[1]] if st[0] == "o" else
+                                  ["f"] + _enc_events([(st[1], st[2])])[0] for st in last]}, 1)
+
+
+def _form_drivers(coded, dim):
+    # (initial bins, initial n_out_of_range, weight, driver): bins made by lena from the edges and
+    # bins given with the edges, the structure and the element (all four combinations for the
+    # multidimensional histograms, two of them for the many 1-dimensional arrays)
+    if dim == 1:
+        return ((None, 0, 1, "structure"), (coded, 0, 1, "element-ctx"))
+    return ((None, 0, 1, "structure"), (coded, 3, -1, "structure"),
+            (None, 0, 1, "element"), (coded, 0, 1, "element-ctx"))
+
+
+def run_forms_md(res, tier, p):
+    """The container axis on the multidimensional histograms: every form of FM.forms_md x every
+    product of the per-axis coordinates (below, every edge, just below the last edge, above)."""
+    name, edges = _md_configs(tier)[p["cfg"]]
+    axes = R.unify(edges)
+    per_axis = [R.axis_coordinates(a, rich=False) for a in axes]
+    ncells = len(R.cells_in_order(edges))
+    coded = R.coded_bins(edges)
+    last = None
+    for form in FM.forms_md(len(axes)):
+        for k, coord in enumerate(itertools.product(*per_axis)):
+            c = list(coord) if k % 2 else coord
+            check_index_md(res, edges, c, form=form)
+            for bins0, n0, w, via in _form_drivers(coded, len(axes)):
+                landed = judge_fill(res, edges, bins0, n0, [(c, w)], via=via, form=form)
+                res.case(nontrivial=landed and ncells >= 2)
+            res.count("formed_points_md")
+        res.count("forms_md")
+        last = {"law": "fill", "via": "structure", "edges": T.enc(edges), "bins": None, "n_out": 0,
+                "events": _enc_events([(c, 1)]), "form": form}
+    if last:
+        res.sample(last, 1)
+
+
+def run_forms_1d(res, tier, chunk):
+    """The container axis on every 1-dimensional edge array: the flat edge list as a tuple and as
+    an instance of a list / tuple subclass x (below, every edge, just below the last edge, above)."""
+    arrays = R.edge_arrays(tier)
+    last = None
+    for name, edges in arrays[chunk::N_FORM_SHARDS]:
+        ncells = len(edges) - 1
+        coded = R.coded_bins(edges)
+        coords = R.axis_coordinates(edges, rich=False)
+        for form in FM.forms_1d():
+            for x in coords:
+                check_index(res, edges, x, form=form)
+                for bins0, n0, w, via in _form_drivers(coded, 1):
+                    landed = judge_fill(res, edges, bins0, n0, [(x, w)], via=via, form=form)
+                    res.case(nontrivial=landed and ncells >= 2)
+                res.count("formed_points_1d")
+        res.count("edge_arrays_forms")
+        last = {"law": "fill", "via": "structure", "edges": T.enc(edges), "bins": None, "n_out": 0,
+                "events": _enc_events([(coords[1], 1)]), "form": "tuple"}
+    if last:
+        res.sample(last, 1)
+
+
 def run_shard(p, tier):
     res = Result()
     if p["kind"] == "index":
@@ -527,6 +903,12 @@ def run_shard(p, tier):
         run_md_typed(res, tier, p)
     elif p["kind"] == "seq":
         run_seq(res, tier, p)
+    elif p["kind"] == "history":
+        run_history(res, tier, p)
+    elif p["kind"] == "forms-md":
+        run_forms_md(res, tier, p)
+    elif p["kind"] == "forms-1d":
+        run_forms_1d(res, tier, p["chunk"])
     return res
 
 
@@ -534,11 +916,23 @@ def replay(case):
     res = Result()
     law = case.get("law")
     edges = T.dec(case["edges"])
+    form = case.get("form")
     if law == "bin-index-1d":
-        check_index(res, edges, T.dec(case["x"]))
+        check_index(res, edges, T.dec(case["x"]), form=form)
     elif law == "bin-index-md":
         x = T.dec(case["x"])
-        check_index_md(res, edges, x if case.get("as_list") else tuple(x))
+        check_index_md(res, edges, x if case.get("as_list") else tuple(x), form=form)
+    elif law == "history":
+        steps = []
+        for st in case["steps"]:
+            if st[0] == "o":
+                steps.append(["o", st[1]])
+            else:
+                c = T.dec(st[1])
+                if isinstance(c, list) and len(st) > 3 and st[3] == "tuple":
+                    c = tuple(c)
+                steps.append(["f", c, T.dec(st[2])])
+        judge_history(res, edges, steps, via=case.get("via", "structure"))
     elif law == "fill":
         events = []
         for ev in case["events"]:
@@ -547,7 +941,8 @@ def replay(case):
                 c = tuple(c)
             events.append((c, T.dec(ev[1])))
         bins0 = T.dec(case["bins"]) if case.get("bins") is not None else None
-        judge_fill(res, edges, bins0, case.get("n_out", 0), events, via=case.get("via", "structure"))
+        judge_fill(res, edges, bins0, case.get("n_out", 0), events, via=case.get("via", "structure"),
+                   form=form)
     return result_violations(res)
 
 
@@ -559,12 +954,17 @@ LEVEL_TEXT = ("bounded exhaustive exploration: every strictly increasing sub-seq
               "states, plus every fill sequence up to length 3 on 1-3 dimensional histograms, and - "
               "for every edge array again - for coordinates of every other real-number type (Fraction "
               "on and between floats, huge int, bool, int/float subclasses, Decimal on integer edges) "
-              "with int, Fraction and Decimal weights, each judged against a count-the-edges "
-              "reference model")
+              "with int, Fraction and Decimal weights, for the edges given in tuples and in list / tuple "
+              "subclasses (every assignment of containers to the axes), and for every short history "
+              "in which other public operations (scale, set_nevents, add, copies, reset) stand between "
+              "the fills, each judged against a count-the-edges reference model")
 LEVEL_NOTE = ("holds for the enumerated pools only; NaN coordinates, edge spans that overflow, "
               "non-numeric bin contents, Decimal coordinates on float edges, edges that are not ints "
-              "or floats and user-defined number classes are outside the alphabet; sequences longer "
-              "than 3 fills are not explored")
-TECHNIQUE = ("exhaustive enumeration of edge arrays x coordinates (floats and every other real-number "
-             "type) x weights x short fill sequences on the real code against a count-of-edges "
-             "reference model")
+              "or floats, user-defined number classes and edge containers other than lists and tuples "
+              "(and their subclasses) are outside the alphabet; sequences longer than 3 fills and "
+              "histories longer than 3 (4 or 5 for small histograms) steps are not explored; the results "
+              "of the operations between fills are not judged here")
+TECHNIQUE = ("exhaustive enumeration of edge arrays (in every list/tuple container form) x coordinates "
+             "(floats and every other real-number type) x weights x short fill sequences and short "
+             "histories of fills and other public operations on the real code against a count-of-edges "
+             "reference model that is re-based on the real contents after every operation")
